@@ -21,4 +21,22 @@ PROPS = {
     ),
 }
 
+PROPS["C17"] = dict(
+    modules=["Hub.Props.C17"],
+    gens=["c17"],
+    rule="real wrappedSink.processEntities (with the real LogFailingEntityHandler behind a recorder) against a scripted sink: all subsets "
+         "of rejected positions for one batch of size <=7 (thorough <=10) x all maxItems in [0,n+1], plus sampled multi-batch runs with "
+         "transient call failures and batches up to 200; non-trivial = more than one entity and at least one failure; distinct = distinct input",
+    trusted=["the sink is an arbitrary stateful oracle in the theorems; the harness realises permanent and per-call transient oracles",
+             "time.AfterFunc / job.Run re-entry of the reRun handler is modelled by `chain`, not executed in the quick tier"],
+    assumptions=["at most one log handler per trigger (verifyErrorHandlers rejects duplicates)"],
+    exhaustive=True,
+    level_text="Proof: for every batch, every sink behaviour (stateful oracle) the bisection delivers or reports every entity exactly once "
+               "(partition), delivers exactly the non-rejected ones in order for permanent rejects (permanent_rejects), stops at the m-th "
+               "rejection with everything so far accounted for as a prefix (max_items), and any run with a rejection ends with lastError set "
+               "(outcome_carries_error); reRun chains are bounded by maxRetries and never follow success or a kill (rerun_bounded, chain_stops). "
+               "The model's shape is tied to error_handler.go by regenerated facts and the real wrappedSink is run against the model exhaustively for small batches.",
+    level_note="Trusted: Lean kernel, factgen (syntactic shapes), the scripted sink. Timers of the reRun handler are not exercised by the quick tier.",
+)
+
 NOT_YET = {}
